@@ -290,6 +290,10 @@ class PrimitiveField(_BaseField):
             Primitive.uint32,
             Primitive.uint64,
             Primitive.float64,
+            # These have a non-null implicit default when tagged and ignorable, and
+            # the protocol has no null representation for them.
+            Primitive.bool_,
+            Primitive.error_code,
         }:
             return False
 
